@@ -1696,6 +1696,81 @@ func parProp(c ParCase, r *pbt.R) error {
 	return nil
 }
 
+// ViewsCase: one []any "row" is built from Row (entry >= 0: the int itself as a leaf; entry < 0: a []int leaf of -entry
+// elements counting up from 100*position); the nesting handed to the helper mentions the row SEVERAL times: the row
+// itself, prefixes of it (views of the same array that start at the same element) and a suffix, in the order given by
+// Use (each entry e: e%4 == 0 whole row, 1 prefix of length e/4 mod (len+1), 2 suffix from e/4 mod (len+1), 3 the row wrapped
+// in one more []any). A nesting may mention one container as often as it likes; every mention contributes its leaves.
+type ViewsCase struct {
+	Row []int `json:"row"`
+	Use []int `json:"use"`
+}
+
+func (c ViewsCase) build() (nest []any, leaves []int, desc string) {
+	row := make([]any, len(c.Row))
+	flat := make([][]int, len(c.Row))
+	for i, e := range c.Row {
+		if e >= 0 {
+			row[i], flat[i] = e, []int{e}
+		} else {
+			l := make([]int, ((-e)%4)+1)
+			for j := range l {
+				l[j] = 100*i + j
+			}
+			row[i], flat[i] = l, l
+		}
+	}
+	sum := func(lo, hi int) []int {
+		var out []int
+		for i := lo; i < hi; i++ {
+			out = append(out, flat[i]...)
+		}
+		return out
+	}
+	n := len(row)
+	for _, u := range c.Use {
+		if u < 0 {
+			u = -u
+		}
+		k := (u / 4) % (n + 1)
+		switch u % 4 {
+		case 0:
+			nest, leaves, desc = append(nest, row), append(leaves, sum(0, n)...), desc+" row"
+		case 1:
+			nest, leaves, desc = append(nest, row[:k]), append(leaves, sum(0, k)...), desc+fmt.Sprintf(" row[:%d]", k)
+		case 2:
+			nest, leaves, desc = append(nest, row[k:]), append(leaves, sum(k, n)...), desc+fmt.Sprintf(" row[%d:]", k)
+		default:
+			nest, leaves, desc = append(nest, []any{row}), append(leaves, sum(0, n)...), desc+" []any{row}"
+		}
+	}
+	return nest, leaves, fmt.Sprintf("row = %v; nesting = []any{%s }", row, desc)
+}
+
+func viewsGen(s pbt.Src, thorough bool) ViewsCase {
+	max := 5
+	if thorough {
+		max = 9
+	}
+	return ViewsCase{
+		Row: pbt.Seq(s, 1, max, func(s pbt.Src) int { return pbt.Range(s, -3, 6) }),
+		Use: pbt.Seq(s, 1, 4, func(s pbt.Src) int { return s.Intn(40) }),
+	}
+}
+
+func viewsProp(c ViewsCase, r *pbt.R) error {
+	if len(c.Row) > 64 || len(c.Use) > 16 {
+		return nil
+	}
+	nest, leaves, desc := c.build()
+	got, err := gogu.Flatten[int](nest)
+	if err != nil || !same(got, leaves) {
+		return fmt.Errorf("%s: Flatten[int] = %v, %v; want the leaves of every mention, left to right: %v", desc, got, err, leaves)
+	}
+	r.NonTrivialIf(len(c.Use) >= 2, "the row is mentioned at least twice")
+	return nil
+}
+
 func TestProp(t *testing.T) {
 	const sl = "every slice up to length 7 over the values 0..3 (thorough: length 8 over 0..4)"
 	const rnd = "random: slices up to length 40 over up to 12 values (thorough: 120 over 24), half of them over 3 values only"
@@ -1799,6 +1874,12 @@ func TestProp(t *testing.T) {
 				"Enumerated: " + sl + "; " + rnd + ". Non-trivial = non-empty slice." + dist,
 			Enum: enumSliceCase, Gen: genSliceCase, Prop: propIter, OutOfEnum: sliceCaseOutOfEnum,
 			RapidQuick: 1200, RapidThorough: 30000,
+		},
+		&pbt.Check[ViewsCase]{
+			Name: "flatten-views",
+			Rule: "Flatten[int] of a nesting that mentions ONE []any container several times: the container itself, prefixes of it (views of one array that start at the same element), suffixes, and the container wrapped once more; the result lists the leaves of every mention left to right, without an error. Random: rows of 1..5 (9) entries, 1..4 mentions. Non-trivial = at least two mentions.",
+			Gen: viewsGen, Prop: viewsProp, OutOfEnum: func(ViewsCase, bool) bool { return true },
+			RapidQuick: 1500, RapidThorough: 20000,
 		},
 		&pbt.Check[ParCase]{
 			Name: "parallel",
